@@ -108,13 +108,30 @@ func cmdCheck(args []string) {
 	os.RemoveAll(replayDir)
 	os.MkdirAll(replayDir, 0o755)
 
-	e := NewEngine(repo, verifDir)
-	if err := e.Load(ps.Packages); err != nil {
-		// the tree does not build (or a contract file does not parse): a broken
-		// check, not a verdict about the property
-		fmt.Fprintln(os.Stderr, "gocv: load failed:", err)
+	// Every package is loaded and analysed ON ITS OWN (functions of other /repo
+	// packages are then callees without a body: used through their contracts, or
+	// under the shallow-write assumption).  This keeps a function's verification
+	// conditions independent of which other packages a property happens to list.
+	engines := map[string]*Engine{}
+	var engList []*Engine
+	for _, pat := range ps.Packages {
+		pe := NewEngine(repo, verifDir)
+		if err := pe.Load([]string{pat}); err != nil {
+			// the tree does not build (or a contract file does not parse): a broken
+			// check, not a verdict about the property
+			fmt.Fprintln(os.Stderr, "gocv: load failed:", err)
+			os.Exit(2)
+		}
+		for _, p := range pe.pkgs {
+			engines[p.PkgPath] = pe
+		}
+		engList = append(engList, pe)
+	}
+	if len(engList) == 0 {
+		fmt.Fprintln(os.Stderr, "gocv: property lists no packages")
 		os.Exit(2)
 	}
+	e := engList[0]
 	// preludes
 	var vcPre, recPre string
 	lemmaDefined := map[string]bool{}
@@ -178,6 +195,12 @@ func cmdCheck(args []string) {
 			fails = append(fails, &failure{Name: pf.Key + "#contract", Reason: "no contract with key " + pf.Key + " (contract target missing)"})
 			continue
 		}
+		e := engines[con.Pkg]
+		if e == nil {
+			fmt.Fprintf(os.Stderr, "gocv: props/%s.json lists %s but not its package %s\n", prop, pf.Key, con.Pkg)
+			os.Exit(2)
+		}
+		con = e.contracts[pf.Key]
 		fn, err := e.FindFunc(con)
 		if err != nil {
 			fails = append(fails, &failure{Name: pf.Key + "#target", Reason: err.Error()})
@@ -200,7 +223,12 @@ func cmdCheck(args []string) {
 	}
 
 	// ownership declarations of the loaded packages (static scan, no solver)
-	ownsChecked, ownsBad := e.OwnershipViolations()
+	var ownsChecked, ownsBad []string
+	for _, pe := range engList {
+		c, b := pe.OwnershipViolations()
+		ownsChecked = append(ownsChecked, c...)
+		ownsBad = append(ownsBad, b...)
+	}
 	for _, b := range ownsBad {
 		fails = append(fails, &failure{Name: "owns#" + sanitize(b), Reason: b})
 	}
